@@ -277,7 +277,7 @@ def scenario(run, tape, clock, store):
                 # one replay hangs past the timeout while the other categories' runs are under way: only that recording fails
                 tuner.hang = (tape.choice(pool), sim)
                 run.probe('a_replay_hangs_while_other_categories_run')
-        with seams.rebind([(EQ.__name__, 'mp', mp), (EQ.__name__, 'os', mp.os_proxy(_real_os)), (EQ.__name__, 'time', sim.time)]):
+        with seams.rebind([(EQ.__name__, 'mp', mp), (EQ.__name__, 'os', mp.os_proxy(_real_os)), (EQ.__name__, 'time', sim.time), (EQ.__name__, 'signal', mp.signal_proxy())]):
             try:
                 sim.run_main(drive)
             except SimDeadlock as ex:
